@@ -4,7 +4,10 @@ from pyvc.api import REG, record, external, contract, spec, axiom
 import fnmatch as _fnmatch
 import libcst as _cst
 import os as _os
-REG.spec_globals = {"fnmatch": _fnmatch, "cst": _cst, "os": _os}
+import re as _re
+from codemodder.codetf import Change as _Change, ChangeSet as _ChangeSet, UnfixedFinding as _UnfixedFinding
+REG.spec_globals = {"fnmatch": _fnmatch, "cst": _cst, "os": _os, "re": _re, "Change": _Change, "ChangeSet": _ChangeSet,
+                    "UnfixedFinding": _UnfixedFinding}
 
 # ---- ghost state ---------------------------------------------------------------------------------
 REG.ghosts = {
@@ -88,3 +91,10 @@ record("codemodder.codetf.CodeTF", kind="ref", fields={"run": "Opaque", "results
 record("codemodder.cli.ArgumentParser", kind="ref", fields={})
 REG.exceptions.update({"DuplicateToolError": "codemodder.sarifs.DuplicateToolError",
                        "MisconfiguredAIClient": "codemodder.llm.MisconfiguredAIClient"})
+record("codemodder.codemods.regex_transformer.RegexTransformerPipeline", kind="ref",
+       fields={"pattern": "str", "replacement": "str", "change_description": "str"},
+       bases=["codemodder.codemods.base_transformer.BaseTransformerPipeline"])
+record("codemodder.codemods.regex_transformer.SastRegexTransformerPipeline", kind="ref", fields={},
+       bases=["codemodder.codemods.regex_transformer.RegexTransformerPipeline"])
+record("codemodder.codemods.xml_transformer.XMLTransformerPipeline", kind="ref", fields={"xml_transformer": "Opaque"},
+       bases=["codemodder.codemods.base_transformer.BaseTransformerPipeline"])
